@@ -393,5 +393,63 @@ fn main() {
             }
         },
     );
+    // 3-D / 4-D arrays, every axis: each lane's entries obey the laws of its own lane (disjoint value ranges per lane)
+    rep.run_sub(
+        "lanes-of-nd-arrays",
+        "shapes (3,2,4), (2,3,3), (4,2,2,3) x every axis x 5 strategies x a sorted request list of 7 q values from 0 to 1: result shape, each entry within its own lane's [min, max], q=0 / q=1 give that lane's extremes, non-decreasing along the requests",
+        [vec![3usize, 2, 4], vec![2, 3, 3], vec![4, 2, 2, 3]].iter().flat_map(|sh| (0..sh.len()).map(move |ax| (sh.clone(), ax)).collect::<Vec<_>>()),
+        |c, lx| {
+            use ndarray_stats::QuantileExt;
+            let (shape, axis) = c;
+            lx.nontrivial(true);
+            let lanes = nsmc::layouts::lanes_flat(shape, *axis);
+            let n: usize = shape.iter().product();
+            let ll = shape[*axis];
+            let mut data = vec![0i64; n];
+            for (j, lane) in lanes.iter().enumerate() {
+                for (k, &fi) in lane.iter().enumerate() {
+                    data[fi] = (((k * 3 + j) % ll) as i64) * 10 + 1000 * ((j * 7 + 3) % lanes.len()) as i64;
+                }
+            }
+            let qs = [0.0, 0.2, 0.4, 0.5, 0.6, 0.9, 1.0];
+            let ax = Axis(*axis);
+            for &strat in &Strat::ALL {
+                lx.single(|lx| {
+                    let mut a = ndarray::ArrayD::from_shape_vec(ndarray::IxDyn(shape), data.clone()).unwrap();
+                    let qa = Array1::from(qs.iter().map(|&q| n64(q)).collect::<Vec<N64>>());
+                    match guarded(|| nsmc::with_strategy!(strat, i, a.quantiles_axis_mut(ax, &qa, i))) {
+                        Ok(Ok(res)) => {
+                            let mut want = shape.clone();
+                            want[*axis] = qs.len();
+                            if !lx.check(res.shape() == &want[..], "C19/result-shape", || format!("{:?} {:?}: result shape {:?}, expected {:?}", c, strat, res.shape(), want)) {
+                                return 0;
+                            }
+                            for (j, lane) in lanes.iter().enumerate() {
+                                let (mn, mx) = (lane.iter().map(|&i| data[i]).min().unwrap(), lane.iter().map(|&i| data[i]).max().unwrap());
+                                let mut prev = i64::MIN;
+                                for jq in 0..qs.len() {
+                                    let v = res.index_axis(ax, jq).iter().cloned().nth(j).unwrap();
+                                    lx.check(mn <= v && v <= mx, "C19/outside-min-max", || format!("{:?} {:?}: lane {} entry for q={:?} is {} outside that lane's [{}, {}]", c, strat, j, qs[jq], v, mn, mx));
+                                    lx.check(prev <= v, "C19/not-monotone-in-q", || format!("{:?} {:?}: lane {} not monotone at q={:?}", c, strat, j, qs[jq]));
+                                    prev = v;
+                                    if jq == 0 {
+                                        lx.check(v == mn, "C19/q0-not-min", || format!("{:?} {:?}: lane {} q=0 gives {}, minimum {}", c, strat, j, v, mn));
+                                    }
+                                    if jq == qs.len() - 1 {
+                                        lx.check(v == mx, "C19/q1-not-max", || format!("{:?} {:?}: lane {} q=1 gives {}, maximum {}", c, strat, j, v, mx));
+                                    }
+                                }
+                            }
+                            hash_of(&res.iter().cloned().collect::<Vec<_>>())
+                        }
+                        other => {
+                            lx.fail("C19/panic", || format!("quantiles_axis_mut failed: {:?}; {:?}", other.map(|r| r.map(|_| ())), c));
+                            0
+                        }
+                    }
+                });
+            }
+        },
+    );
     rep.finish();
 }
